@@ -75,6 +75,8 @@ struct colvarmodule {
   static step_number step_relative() { return g_step_rel; }
   static step_number step_absolute() { return g_step_abs; }
   static bool debug() { return g_debug != 0; }
+  static void increase_depth() {}   // log indentation only
+  static void decrease_depth() {}
   static void log(CVS_MSG_T const &, int = 10) {}
   static int error(CVS_MSG_T const &, int code = COLVARS_ERROR) { g_errors = g_errors + 1; g_error_bits = g_error_bits | (unsigned)code; return code; }
   static int get_error() { return (int) g_error_bits; }
